@@ -5,15 +5,16 @@ INFO = {
     "claim": "Slice: the size-class selection and the address-to-piece arithmetic of the fixed-size allocator in store.c are exact: for every "
              "request size <= FixedSizeMax the chosen class is the smallest class that fits; for every class and every address inside a "
              "prepared section the piece index computed by the fast path (shift or division lookup table) is (address - data)/size and "
-             "lies inside the section, the info array and the data area do not overlap and the data area ends at the section end; decided "
-             "by CBMC on the real stoInit / sectPrepare / qmLogNo / qmDivNo. Allocation histories, the mixed-size B-tree, resize and "
-             "collection are NOT decided.",
+             "lies inside the section, the info array and the data area do not overlap and the data area ends at the section end; the B-tree that indexes "
+             "free mixed-size pieces keeps its keys, order and balance under its node primitives (split, unsplit, rotate, on leaf and interior nodes) and "
+             "under one insert/delete on a leaf root; decided by CBMC on the real stoInit / sectPrepare / qmLogNo / qmDivNo / btree.c. Allocation "
+             "histories, piece carving and merging of mixed sections, resize and collection are NOT decided.",
     "level": "model_checking",
     "bounds": "tables (production parameters): all request sizes 0..256, all 12 size classes and class pairs, all 4096 offsets within a page; section "
               "layout: all 12 classes, every address of the data area, tagging on and off, pages of 512 bytes (quick) and 1024 bytes "
               "(thorough) selected through the ALDOR_VERIF_STO_LG_PGSIZE hook -- the production 4096-byte page is NOT decided for the section layout",
-    "outside": "every operation history (stoAlloc/stoFree/stoResize/stoGc sequences), free-list integrity over time, mixed-size pieces and their B-tree "
-               "(btree.c primitives are decided under C20), page map growth, conservative marking, alignment of the page group itself (CBMC has no "
+    "outside": "every operation history (stoAlloc/stoFree/stoResize/stoGc sequences), free-list integrity over time, the size arithmetic of mixed-size sections "
+               "(pieceGetMixed), whole B-tree operations on trees of more than one level, page map growth, conservative marking, alignment of the page group itself (CBMC has no "
                "numeric addresses: byteGetIfCan's pointer/integer round trip is outside the memory model)",
     "assumptions": ["osAlloc returns no memory during stoInit (stoInit tolerates that and still initialises every table checked here)",
                     "osGetEnv returns NULL (no GC_* tuning variables)", "the page group handed to sectPrepare is a static, maximally aligned array"],
@@ -36,4 +37,11 @@ def queries(ctx, extra):
                             out_of_scope=OOS, stubs=["stubs.c", "stubs_print.c"], unwind=(1 << lg) + 4, timeout=1200, mem_gb=10,
                             tiers=tiers, group="section layout",
                             bound="size class %d, %d page(s) of %d bytes (hook), every address inside the data area, tagging on/off" % (cls, npg, 1 << lg)))
+    # the free mixed-size pieces are indexed by a B-tree (store.c -> btree.c): the node primitives (split, unsplit, rotate up/down on leaf and
+    # interior nodes) and one insert/delete step on a leaf root are the queries of C20, decided here as part of the allocator
+    from props import c20
+    for q in c20.queries(ctx, {}):
+        if q.name.startswith("btree_"):
+            q.group = "free-piece index (btree.c)"
+            qs.append(q)
     return qs
